@@ -155,6 +155,14 @@ class TimeTheory(ObjTheory):
         if ra is not None and rb is not None:
             if isinstance(op, ast.Div):
                 return Z("real", ra / rb)
+            isreal_ = (isinstance(a, Z) and a.kind == "real") or (isinstance(b, Z) and b.kind == "real")
+            if isinstance(op, (ast.FloorDiv, ast.Mod)):
+                ex.oblige(f"{ex.fv.qual}:floor-division:divisor-positive", rb > 0)
+                if isreal_:
+                    q = z3.ToReal(z3.ToInt(ra / rb))
+                    return Z("real", q if isinstance(op, ast.FloorDiv) else ra - q * rb)
+                ia, ib = ex.as_int(a), ex.as_int(b)
+                return Z("int", ia / ib if isinstance(op, ast.FloorDiv) else ia % ib)
             isreal = (isinstance(a, Z) and a.kind == "real") or (isinstance(b, Z) and b.kind == "real")
             if isreal and isinstance(op, (ast.Add, ast.Sub, ast.Mult)):
                 return Z("real", {ast.Add: ra + rb, ast.Sub: ra - rb, ast.Mult: ra * rb}[type(op)])
